@@ -563,7 +563,12 @@ fn anchored_layer(rg: &Path, tier: Tier) -> AnchoredResult {
     ];
     // (the third source is a file given with --ignore-file, whose rules are
     // relative to the current directory: used where that is P)
-    let sources = ["ignore", "gitignore", "ignore-file"];
+    // (the fourth is the global git ignore file, $HOME/.config/git/ignore,
+    // with P a repository: ripgrep documents no anchor for its rules; like
+    // those of --ignore-file they are taken relative to the current directory,
+    // and the demand here is that the spelling of the root does not matter.
+    // The fifth is P/.git/info/exclude, anchored at P like P/.gitignore.)
+    let sources = ["ignore", "gitignore", "ignore-file", "global", "exclude"];
     // work items
     // (rule set, roots, source, --hidden)
     let mut work: Vec<(usize, usize, usize, bool)> = vec![];
@@ -573,7 +578,10 @@ fn anchored_layer(rg: &Path, tier: Tier) -> AnchoredResult {
                 if si == 1 && (ri + ro) % tier.pick(3, 1) != 0 {
                     continue;
                 }
-                if si == 2 && (!root_sets[ro].0.is_empty() || (ri + ro) % tier.pick(2, 1) != 0) {
+                if (si == 2 || si == 3) && (!root_sets[ro].0.is_empty() || (ri + ro + si) % tier.pick(2, 1) != 0) {
+                    continue;
+                }
+                if si == 4 && (ri + ro) % tier.pick(3, 1) != 1 % tier.pick(3, 1) {
                     continue;
                 }
                 work.push((ri, ro, si, false));
@@ -699,6 +707,7 @@ fn anchored_layer(rg: &Path, tier: Tier) -> AnchoredResult {
                         let _ = std::fs::remove_file(pdir.join(n));
                     }
                     let _ = std::fs::remove_dir_all(pdir.join(".git"));
+                    let _ = std::fs::remove_dir_all(scratch.path.join("home/.config"));
                     let (label, cwd, roots, extra, want): (String, &str, Vec<&str>, Vec<String>, BTreeSet<String>);
                     if i < work.len() {
                         let (ri, ro, si, hidden) = work[i];
@@ -711,8 +720,15 @@ fn anchored_layer(rg: &Path, tier: Tier) -> AnchoredResult {
                         } else if si == 1 {
                             std::fs::create_dir_all(pdir.join(".git")).unwrap();
                             std::fs::write(pdir.join(".gitignore"), &text).unwrap();
-                        } else {
+                        } else if si == 2 {
                             std::fs::write(&rules_file, &text).unwrap();
+                        } else if si == 3 {
+                            std::fs::create_dir_all(pdir.join(".git")).unwrap();
+                            std::fs::create_dir_all(scratch.path.join("home/.config/git")).unwrap();
+                            std::fs::write(scratch.path.join("home/.config/git/ignore"), &text).unwrap();
+                        } else {
+                            std::fs::create_dir_all(pdir.join(".git/info")).unwrap();
+                            std::fs::write(pdir.join(".git/info/exclude"), &text).unwrap();
                         }
                         cwd = c;
                         roots = r.clone();
@@ -734,7 +750,7 @@ fn anchored_layer(rg: &Path, tier: Tier) -> AnchoredResult {
                             .filter(|(f, r)| !anchored_ignored(lines, f, r))
                             .map(|(f, _)| f.to_string())
                             .collect();
-                        label = format!("{} {:?}{} | cwd P/{} | roots {:?}", if si == 2 { "--ignore-file".to_string() } else { format!("P/.{}", sources[si]) }, lines, if hidden { " --hidden" } else { "" }, c, r);
+                        label = format!("{} {:?}{} | cwd P/{} | roots {:?}", match si { 2 => "--ignore-file".to_string(), 3 => "~/.config/git/ignore".to_string(), 4 => "P/.git/info/exclude".to_string(), _ => format!("P/.{}", sources[si]) }, lines, if hidden { " --hidden" } else { "" }, c, r);
                         if want.len() < under(cwd, &roots).len() {
                             local.nontrivial += 1;
                         }
